@@ -16,6 +16,7 @@ import GambitV.Gen.PyMetric
 import GambitV.Gen.PyBulk
 import GambitV.Gen.PyConcat
 import GambitV.Gen.PyCalcSig
+import GambitV.Gen.PySigList
 import GambitV.Model.Bulk
 import GambitV.Model.Indexing
 import GambitV.Spec.Taxonomy
@@ -202,5 +203,23 @@ def concatIndex (sigs : List (List Nat)) (ix : GambitV.Index) : Option String :=
 def calcSignature (k : Nat) (pre : List UInt8) (seqs : List (List UInt8)) (real : String) : Option String :=
   cmp "calc_signature" Gen.calc_signature.untranslatable
     (resStr (fun (l : List Int) => natsOf (l.map Int.toNat)) (Gen.calc_signature { k := (k : Int), pre := pre } seqs none)) real
+
+/-- a history of `SignatureList` mutations through the definitions generated from the current source: final list and the positions of the
+operations that raised (a failing operation leaves the list unchanged), in the wire form of `c20.mut` -/
+def sigListMuts (sigs : List (List Nat)) (ops : List GambitV.Mut) (real : String) : Option String :=
+  let z : List Nat → List Int := fun l => l.map (fun (x : Nat) => (x : Int))
+  let step := fun (acc : List (List Int) × List Nat × Nat) (op : GambitV.Mut) =>
+    let (xs, errs, n) := acc
+    let r := match op with
+      | .set i x => Gen.siglist_setitem xs i (z x)
+      | .insert i x => Gen.siglist_insert xs i (z x)
+      | .del i => Gen.siglist_delitem xs i
+    match r with
+    | .ok xs' => (xs', errs, n + 1)
+    | _ => (xs, errs ++ [n], n + 1)
+  let (xs, errs, _) := ops.foldl step (sigs.map z, [], 0)
+  cmp "SignatureList.__setitem__ / __delitem__ / insert"
+    (Gen.siglist_setitem.untranslatable || Gen.siglist_insert.untranslatable || Gen.siglist_delitem.untranslatable)
+    (natListsOf (xs.map (fun l => l.map Int.toNat)) ++ " " ++ natsOf errs) real
 
 end Driver.PyGen
